@@ -62,7 +62,7 @@ def gen_case(rng, tier, i):
         classes = L.decorate(spec, rng, a)
     # hostile class: near-paraboloid surface x near-axial rays (conic intersection cancellation)
     hostile = False
-    if not cheb1 and rng.random() < 0.06:
+    if not cheb1 and rng.random() < 0.1:
         for s in spec['surfaces'][:-1]:
             if s.get('type', 'standard') == 'standard' and s.get('radius') != 'inf':
                 s['conic'] = -1.0 if rng.random() < 0.7 else -1.0 + float(rng.normal() * 1e-9)
@@ -77,7 +77,7 @@ def gen_case(rng, tier, i):
     Hy = np.full(n, float(rng.choice([0.0, 1.0, -1.0, rng.uniform(-1, 1)])))
     if hostile:
         Hy[:] = 0.0
-        if spec['field_type'] == 'angle' and rng.random() < 0.8:
+        if spec['field_type'] == 'angle' and rng.random() < 0.5:
             spec['fields'] = [[0.0, 0, 0], [float(10 ** rng.uniform(-7, -4)), 0, 0]]
             Hy[:] = 1.0
         Px[:12] *= 1e-6
@@ -125,14 +125,40 @@ def shape_from_lib(surf):
     return d
 
 
+def textbook_conic_distance(P, D, R, k):
+    """As-built replica of the known mechanism `conic-intersection-cancellation` (NOT an oracle)."""
+    x, y, z = P[:, 0], P[:, 1], P[:, 2]
+    Lc, Mc, Nc = D[:, 0], D[:, 1], D[:, 2]
+    with np.errstate(all='ignore'):
+        a = k * Nc ** 2 + Lc ** 2 + Mc ** 2 + Nc ** 2
+        b = (2 * k * Nc * z + 2 * Lc * x + 2 * Mc * y - 2 * Nc * R + 2 * Nc * z)
+        c = (k * z ** 2 - 2 * R * z + x ** 2 + y ** 2 + z ** 2)
+        d = b ** 2 - 4 * a * c
+        t1 = (-b + np.sqrt(d)) / (2 * a)
+        t2 = (-b - np.sqrt(d)) / (2 * a)
+        t1[t1 < 0] = np.inf
+        t2[t2 < 0] = np.inf
+        z1 = z + t1 * Nc
+        z2 = z + t2 * Nc
+        t = np.where(np.abs(z1) <= np.abs(z2), t1, t2)
+        t[a == 0] = -c[a == 0] / b[a == 0]
+    return t
+
+
 def classify_off_surface(sh, s, fr, P0, D0, pl_rec, near_par, tol_s):
     """Mechanism key for recorded points that are not on the prescribed sheet (class + explanation)."""
     p0l, d0l = fr.to_local_p(P0), fr.to_local_d(D0)
     if sh.is_conic():
-        if near_par:
+        if near_par and not any(s.get(q) for q in ('rx', 'ry', 'rz')):
             a_coef = np.abs((1 + sh.k) * d0l[:, 2] ** 2 + d0l[:, 0] ** 2 + d0l[:, 1] ** 2)
             if np.all(a_coef < 1e-6):
-                return 'on-surface:conic-intersection-cancellation'
+                # as-built model of the known mechanism: the textbook quadratic evaluated exactly as the
+                # library does (same expression order, same inputs: untilted frame = plain subtraction)
+                t_ab = textbook_conic_distance(P0 - fr.o, D0, S.fnum(s['radius']), sh.k)
+                pred = (P0 - fr.o) + t_ab[:, None] * D0
+                if np.all(np.linalg.norm(pred - pl_rec, axis=1) <= 1e-9 * (1 + np.abs(t_ab))):
+                    return 'on-surface:conic-intersection-cancellation'
+                return 'on-surface:unexplained'
         # full quadric c(x^2+y^2+(1+k)z^2) - 2z = 0 satisfied, but not the vertex sheet -> far-sheet root
         x, y, z = pl_rec[:, 0], pl_rec[:, 1], pl_rec[:, 2]
         F = sh.c * (x * x + y * y + (1 + sh.k) * z * z) - 2 * z
@@ -202,6 +228,7 @@ def check_case(case, rec):
         P = Pall[0].copy(); D = Dall[0].copy(); opd = np.zeros(P.shape[0])
         refP, refD, refO = [P.copy()], [D.copy()], [opd.copy()]
         flagged = np.zeros(P.shape[0], dtype=bool)   # rays whose divergence from the reference was already reported
+    cancel_explained = False
     for k in range(1, K + 1):
         s = surfs[k - 1]
         sh = S.Shape(s)
@@ -321,7 +348,22 @@ def check_case(case, rec):
                 e = max(float(np.max(np.abs(P[both] - Pall[k][both]))) / scale_len,
                         float(np.max(np.abs(D[both] - Dall[k][both]))),
                         float(np.max(np.abs(opd[both] - OPD[k][both]))) / scale_len)
-                cancel = hostile
+                if hostile and sh.is_conic() and sh.c != 0 and abs(1 + sh.k) < 1e-6 and not any(
+                        s.get(q) for q in ('rx', 'ry', 'rz')) and e > 1e-8:
+                    # is the library's point what the textbook quadratic (known mechanism) gives from ITS OWN previous
+                    # record, for exactly the rays that disagree with the reference?
+                    idx = np.where(both)[0]
+                    dev = np.maximum(np.max(np.abs(P[idx] - Pall[k][idx]), axis=1) / scale_len,
+                                     np.max(np.abs(D[idx] - Dall[k][idx]), axis=1))
+                    mm = idx[dev > 1e-8]
+                    if len(mm):
+                        t_ab = textbook_conic_distance(Pall[k - 1][mm] - fr.o, Dall[k - 1][mm], S.fnum(s['radius']), sh.k)
+                        pred = Pall[k - 1][mm] + t_ab[:, None] * Dall[k - 1][mm]
+                        a_small = np.abs((1 + sh.k) * Dall[k - 1][mm][:, 2] ** 2 + Dall[k - 1][mm][:, 0] ** 2
+                                         + Dall[k - 1][mm][:, 1] ** 2) < 1e-6
+                        if np.all(a_small) and np.all(np.linalg.norm(pred - Pall[k][mm], axis=1) <= 1e-9 * (1 + np.abs(t_ab))):
+                            cancel_explained = True
+                cancel = cancel_explained
                 rec.check('reference-agreement', e <= 1e-8, resid=e, tol=1e-8, n=int(both.sum()),
                           key='reference-agreement' + (':conic-intersection-cancellation' if cancel else ''),
                           msg=f'surface {k}: library differs from the closed-form reference tracer by {e:.3e}')
@@ -331,7 +373,7 @@ def check_case(case, rec):
                 x_, y_, z_ = fr.to_local_p(Pall[k][only_lib]).T
                 Fq = sh.c * (x_ * x_ + y_ * y_ + (1 + sh.k) * z_ * z_) - 2 * z_
                 prev_lib = np.all(np.isfinite(refP[k - 1][only_lib]), axis=1)
-                keyn = 'nonfinite-when-no-path:' + ('conic-intersection-cancellation' if hostile else
+                keyn = 'nonfinite-when-no-path:' + ('conic-intersection-cancellation' if cancel_explained else
                                                     'conic-far-sheet-root' if (sh.c != 0 and prev_lib.all() and np.all(
                                                         np.abs(Fq) <= 1e-7 * (1 + np.abs(z_)))) else 'unexplained')
             rec.check('nonfinite-when-no-path', not only_lib.any(), n=int((~reff).sum()) or 1, key=keyn,
